@@ -29,7 +29,13 @@ PROPS = {
             "clauses": ["c15."],
             "quick": {"cases": 50, "shards": 16, "extra": []},
             "thorough": {"cases": 1500, "shards": 16, "extra": []},
-        }],
+        },
+            # the priority mechanism inside ONE class: ready queues in priority order, the backlog (prefill set) given back when a
+            # higher-priority task of the class becomes ready (TaskQueue, check_dispose_prefill, take_tasks): the core view of the
+            # simulated cluster (model M1: queue contents, retract messages, redirects compared per action) + monitor
+            # c15.prefill_priority on every core snapshot
+            {"component": "core", "driver": "hqm-core", "tags": ["q", "msg", "rd", "t", "!panic", "!bad-choice"], "clauses": ["c15."],
+             "quick": {"cases": 13, "shards": 12, "extra": []}, "thorough": {"cases": 100, "shards": 16, "extra": []}}],
         "assumptions": [
             "c15_partial_F is PARTIAL: PriorityRespecting is proved for the fragment F = F1 (at most one request class with ready "
             "tasks; any cluster, any needs over the two resource kinds: c15_F1_two_resources) u F2 (one worker, at most two such "
